@@ -268,6 +268,7 @@ func RunWorker(o WorkerOpts) *WorkerResult {
 	known := loadKnown(o.KnownPath)
 	start := time.Now()
 	seen := map[string]*FoundViolation{}
+	perRule := map[string]int{}
 	handle := func(p *Plan, rs uint64) {
 		v := ck.Oracle(p)
 		res.Evaluations++
@@ -305,8 +306,9 @@ func RunWorker(o WorkerOpts) *WorkerResult {
 			if k := known.match(o.Prop, viol); k != nil {
 				fv.Known = k.What
 			}
-			if len(seen) > 40 {
-				continue // enough distinct findings; keep counting only
+			perRule[viol.Rule]++
+			if len(seen) > 40 || perRule[viol.Rule] > 4 {
+				continue // enough distinct findings of this kind; keep counting only
 			}
 			sp, sv, n := shrinkPlan(ck, p, o.Prop, viol)
 			rf := &ReplayFile{Property: o.Prop, Fingerprint: fp, VerifSeed: o.Seed, RunSeed: fmt.Sprintf("%016x", rs), Tier: o.Tier,
